@@ -91,7 +91,7 @@ CLAIMED = {
         text='Theorems in coq/props/C08.v for every seeding function, parameters, maxDifference: main(all) = main(joined), _1/_2(all) = main/_1(separate), AlignedRest flags, groups are a partition of size <= 2, every single-pass row is un-joined or part of exactly one joined row, '
              'join guard (same query/reference/strand, gap <= maxDifference), joined pairs subset of the parts (sub-run form under well-formedness); "joined = union when the union is valid" is REFUTED for the code as it is (C08_join_is_union_refuted; open known finding F7: resolve uses only segments[0]) and proved for non-conflicting single-segment parts. '
              'Tie: whole runs replayed through the Coordinator/MultiPass model with captured seeds (incl. gap == maxDifference boundary runs); text oracle over the four modes on join-rich data sets; F7 matched by a specific signature (KNOWN-FINDING), anything else is a violation.',
-        note=NOTE + 'Open findings F7 (join uses only the first segments) and F12 (best-mode self-join) are listed in known_findings.json with witnesses and matched by specific signatures.', design='6 (C08), 10.4', technique='Coq proof + refutation witness + run-model correspondence + four-mode text oracle with known-finding signature'),
+        note=NOTE + 'Open finding F7 (join uses only the first segments) is listed in known_findings.json with its witness and matched by a specific signature; F12 (best-mode self-join) was repaired.', design='6 (C08), 10.4', technique='Coq proof + refutation witness + run-model correspondence + four-mode text oracle with known-finding signature'),
     'C10': dict(
         text='Theorems in coq/props/C10.v for every seeding function (query-locality is its type; reference order is discharged at the reader level via C17_perm): execute = concatenation of per-query results; records of a query are the same in a run on all queries, on any subset, on [q] alone and under any permutation (all modes, up to the unprinted source counter); '
              'runs on row/molecule-permuted CMAP files are identical; -qId/-rId = physically restricted files. Tie: real runs (full, shuffled rows, subset, complement, -qId, -rId, added queries, single-molecule runs, colliding id spaces) compared as text; run-model stream across variants.',
